@@ -48,7 +48,8 @@ def _worker(idx):
             if o.verdict is not None and o.verdict.status == "failed":
                 r["model"] = extract_model(o)
                 from . import replay
-                r["scenario"] = replay.build_scenario(o.res.interp, o.res, o.verdict.model) if getattr(o, "res", None) else None
+                r["scenario"] = replay.build_scenario(o.res.interp, o.res, o.verdict.model) if getattr(o, "res", None) \
+                    else getattr(o, "scenario", None)
             if o.verdict is not None and o.verdict.status == "unknown":
                 r["reason"] = o.verdict.reason
             recs.append(r)
